@@ -55,10 +55,10 @@ def _ptrace(rho, dims, keep):
 def s_exact(draw, tier):
     N = draw(st.integers(1, 4))
     fam = draw(st.sampled_from(["uncoupled", "two-site", "commuting"]))
-    nmax = 5 if fam == "uncoupled" else 4
+    nmax = 6 if fam == "uncoupled" else 4
     ch = draw(chaingen.chain_spec(fam, n_min=2, n_max=nmax, dims=(2, 3) if fam != "commuting" else (2,), N=N))
     n = len(ch["dims"])
-    if int(np.prod(ch["dims"])) * int(np.prod([p["e"] for p in ch["pts"] if p])) > 96:
+    if fam != "uncoupled" and int(np.prod(ch["dims"])) * int(np.prod([p["e"] for p in ch["pts"] if p])) > 96:
         ch["pts"] = [p if i == 0 else None for i, p in enumerate(ch["pts"])]
     pairs = [(i, j) for i in range(n) for j in range(i + 1, n)]
     rec = list(range(n)) + [draw(st.sampled_from(pairs))] + ([tuple(range(n))] if int(np.prod(ch["dims"])) <= 16 and n > 2 else [])
